@@ -70,6 +70,9 @@ type Model struct {
 type Opts struct {
 	MaxTypes    int
 	MinPkgDepth int // 1 normally; 2 when the caller wants every package to have a parent segment
+	// ForceTwins: always plant a pair of packages that differ only in '.' versus '_' at one position
+	// (pre.db.v2 / pre.db_v2), so that a caller can use the dotted one as a filter word
+	ForceTwins bool
 }
 
 var collideSegs = []string{"a", "ab", "abc", "b", "bc", "bcd", "c", "cd", "d", "abcd"}
@@ -78,9 +81,9 @@ var typeWords = []string{"Order", "User", "Cart", "Repo", "Service", "Ctl", "Map
 	// perfectly ordinary class names that happen to be DOT keywords (case-insensitively)
 	"Node", "Edge", "Graph", "Digraph", "Subgraph", "Strict"}
 
-// underscores and non-ASCII letters (legal Java identifiers); the arranged pairs are planted in Generate (Model.Twins)
+// underscores, '$' (binary names of nested types) and non-ASCII letters (legal Java identifiers); the arranged pairs are planted in Generate (Model.Twins)
 var exoticSegs = []string{"db_v2", "b_c", "c_d", "b_c_d", "io_", "büro", "bäro", "données", "größe", "倉庫"}
-var exoticTypes = []string{"Db_Conn", "Order_V2", "v2_Conn", "_Tmp", "Conn_", "Größe", "Grüße", "Café", "Cafè", "Ärger", "Örger", "订单", "用户", "注文", "顧客"}
+var exoticTypes = []string{"Db_Conn", "Order_V2", "v2_Conn", "_Tmp", "Conn_", "Cache$Entry", "Outer$Inner", "Map$1", "Größe", "Grüße", "Café", "Cafè", "Ärger", "Örger", "订单", "用户", "注文", "顧客"}
 var twinWords = []string{"db", "v2", "io", "x1", "b", "c"}
 var nonASCIITwinTypes = [][2]string{{"Größe", "Grüße"}, {"Café", "Cafè"}, {"订单", "用户"}, {"注文", "顧客"}, {"Ärger", "Örger"}, {"Niño", "Niñó"}}
 var nonASCIITwinSegs = [][2]string{{"büro", "bäro"}, {"données", "donnèes"}, {"倉庫", "在庫"}}
@@ -193,7 +196,7 @@ func Generate(r *run.Rand, o Opts) *Model {
 	// planted twins: two full names that differ only in characters outside [A-Za-z0-9] (see Model.Twins)
 	type forced struct{ pkg, name string }
 	var forcedTypes []forced
-	if r.Chance(1, 6) {
+	if tw := r.Chance(1, 6); tw || o.ForceTwins {
 		pre := r.Pick(alphabet)
 		if r.Chance(1, 3) {
 			pre += "." + r.Pick(alphabet)
@@ -201,7 +204,11 @@ func Generate(r *run.Rand, o Opts) *Model {
 		w1, w2 := r.Pick(twinWords), r.Pick(twinWords)
 		tn := r.Pick(typeWords)
 		var a, b forced
-		switch r.Intn(5) {
+		kind := r.Intn(5)
+		if o.ForceTwins && kind != 4 {
+			kind = 0
+		}
+		switch kind {
 		case 0: // an underscore lined up with a package boundary: pre.db_v2.T / pre.db.v2.T
 			a, b = forced{pre + "." + w1 + "_" + w2, tn}, forced{pre + "." + w1 + "." + w2, tn}
 		case 1: // ... with the boundary between package and type: pre.db_v2.Conn / pre.db.v2_Conn
